@@ -200,3 +200,21 @@ fn vk_c16_pipeline_exit_return_full() { exit_return_step(false); }
 #[kani::stub(std::hash::RandomState::new, crate::vk_prelude::stub_random_state_new)]
 #[kani::stub(std::time::SystemTime::now, crate::vk_prelude::stub_now)]
 fn vk_c16_pipeline_exit_return_modulo_known() { exit_return_step(true); }
+
+//@proof {'props': ['C11', 'C02'], 'tier': 'quick', 'timeout': 600, 'bounds': 'previous and new status any u8 (equal or not)', 'desc': 'Shell::set_last_exit_status (called directly): the status is stored and the change counter advances on EVERY call - the assignment-only statement `x=$(cmd)` recognises "a substitution set a status" by that counter, also when cmd ends with the status the previous command left'}
+#[kani::proof]
+#[kani::unwind(4)]
+#[kani::stub(std::hash::RandomState::new, crate::vk_prelude::stub_random_state_new)]
+#[kani::stub(std::time::SystemTime::now, crate::vk_prelude::stub_now)]
+fn vk_c11_status_change_counted_on_every_set() {
+    let mut shell: Sh = Shell::default();
+    let before: u8 = kani::any();
+    shell.set_last_exit_status(before);
+    let n0 = shell.last_exit_status_change_count();
+    let s: u8 = kani::any();
+    shell.set_last_exit_status(s);
+    kani::cover!(s == before && s != 0, "same_non_zero_status_twice");
+    assert!(shell.last_exit_status() == s, "C02.status.stored");
+    assert!(shell.last_exit_status_change_count() == n0 + 1, "C11.status.substitution_status_detected_even_when_equal_to_the_previous_one");
+    std::mem::forget(shell);
+}
